@@ -1,3 +1,4 @@
 pub mod build;
+pub mod layout;
 pub mod model;
 pub mod render;
